@@ -17,7 +17,7 @@ RULE = ("every canonical vertex sequence (start at the smallest grid point, seco
 BOUND = {"quick": "all simple grid polygons with 3..5 vertices (4x4 grid), all shifts and orientations; stars/regular 3..80; all sub-tissues of a 7-cell base",
          "thorough": "all simple grid polygons with 3..6 vertices (4x4 grid); all sub-tissues of 11-cell base and square3x3"}
 ASSUMPTIONS = ["zero-area vertex sequences are not polygons and are not generated", "y-up frame"]
-REQUIRED_TAGS = {"all": ["polygon_block", "star", "subtissue_holefree", "nonconvex", "history"]}
+REQUIRED_TAGS = {"all": ["polygon_block", "star", "subtissue_holefree", "nonconvex", "history", "vertex_only_neighbours"]}
 
 GRID = [(x, y) for y in range(4) for x in range(4)]
 
@@ -256,6 +256,7 @@ class SubTissueCells:
             v, e, c, info = T.realise(sub, k=d["k"], cmap=cm, lab={"flips": flips, "shifts": {x: 2 for x in flips}})
         jpos, ipts = T.geometry(sub, d["k"], cm)
         viol = []
+        tags_local = []
         tot = 0.0
         inv = {fid: cid for cid, fid in info["cellid"].items()}
         cyc = {cid: {vv.id for vv in cc.vertices} for cid, cc in c.items()}
@@ -272,10 +273,12 @@ class SubTissueCells:
             if (a < 0) != stored_ccw:
                 viol.append({"what": "area sign does not reflect the stored orientation", "detail": {"cell": inv[cid], "area": a, "stored_ccw": stored_ccw}})
             exp_nb = sorted(o for o in c if o != cid and cyc[o] & cyc[cid])
+            if any(len(cyc[o] & cyc[cid]) == 1 for o in exp_nb):
+                tags_local.append("vertex_only_neighbours")
             if nb != exp_nb:
                 viol.append({"what": "calculate_neighbors is not the set of other cells sharing a vertex", "detail": {"cell": inv[cid], "got": nb, "exp": exp_nb}})
         oa = outline_area(sub, jpos, ipts)
-        tags = []
+        tags = sorted(set(tags_local))
         if oa is not None:
             tags.append("subtissue_holefree")
             if abs(tot - oa) > 1e-9 * max(1.0, oa):
@@ -388,6 +391,7 @@ def build(tier, seed):
     if tier == "quick":
         systems.append(SubTissueCells("v5x4", [0, 2], ["none", "alt"]))
         systems.append(SubTissueCells("v4x4p%d" % (seed + 1), [1], ["all"]))
+        systems.append(SubTissueCells("square3x3", [0, 1], ["none", "alt"]))      # 4-fold junctions: cells that share a vertex but no edge
     else:
         systems.append(SubTissueCells("v5x5", [0, 2], ["none", "alt", "all"]))
         systems.append(SubTissueCells("square3x3", [0, 1], ["none", "alt"]))
